@@ -105,6 +105,11 @@ func typeText(t reflect.Type, own bool) string {
 		panic("unknown package " + t.PkgPath())
 	}
 	switch t.Kind() {
+	case reflect.Struct:
+		if t.NumField() == 0 {
+			return "struct{}"
+		}
+		panic("anonymous struct " + t.String())
 	case reflect.Ptr:
 		return "*" + typeText(t.Elem(), own)
 	case reflect.Slice:
@@ -162,7 +167,7 @@ func (p *prop) Run(c core.Case, w *core.Worker) core.Result {
 	textDigest := bytes.Buffer{}
 	for i := b.Lo; i < b.Hi; i++ {
 		root, v := valgen.Value(seed, i)
-		info := &caseInfo{I: i, Root: valgen.Roots[root].Name, OrigDump: dump.DumpValue(v)}
+		info := &caseInfo{I: i, Root: valgen.RootName(root, v), OrigDump: dump.DumpValue(v)}
 		res.Evals++
 		if !b.Dup && nonTrivial(v) {
 			res.NonTrivial(b.Mode + "|" + info.OrigDump)
